@@ -4,17 +4,19 @@ import (
 	"fmt"
 	"strconv"
 
-	"github.com/ldclabs/cose/iana"
 	"github.com/ldclabs/cose/cose"
+	"github.com/ldclabs/cose/iana"
 	"github.com/ldclabs/cose/key"
 )
 
 // msg.reuse <kind> <mode> <ext1> <msg1> <ext2> <msg2|=> | <key> [| <key>…]
 //
 // One message object and one set of verifier / MACer / encryptor objects live through two uses:
-//   UnmarshalCBOR(msg1); Verify|Decrypt(ext1)            (result ignored)
-//   UnmarshalCBOR(msg2)   — skipped when msg2 is "="     (same decoded object, second call)
-//   Verify|Decrypt(ext2)                                  (answered exactly like msg.consume)
+//
+//	UnmarshalCBOR(msg1); Verify|Decrypt(ext1)            (result ignored)
+//	UnmarshalCBOR(msg2)   — skipped when msg2 is "="     (same decoded object, second call)
+//	Verify|Decrypt(ext2)                                  (answered exactly like msg.consume)
+//
 // Specification (history freedom): the answer is that of `msg.consume <kind> <mode> <ext2> <msg2>` on fresh objects.
 func reuseT[T any](c payloadCodec[T], a *msgArgs, ext1, data1 []byte, same bool) string {
 	ks := keysOf(a.fields)
@@ -191,7 +193,7 @@ func execReuse(a []string) string {
 		return reuseT(rawCodec, args, unhxOpt(h[2]), data1, same)
 	case "rawmsg":
 		return reuseT(rawMsgCodec, args, unhxOpt(h[2]), data1, same)
-	case "typed":
+	case "typed", "gomap":
 		return reuseT(typedCodec, args, unhxOpt(h[2]), data1, same)
 	}
 	return "bad-op"
